@@ -91,11 +91,13 @@ RULE_GROUP = ('TLC generates histories of Group.Add/New/Remove/Use over a pool o
               'and validated against Group.tla / Matchers.tla. Non-trivial = any reply.')
 
 
-def group_stages(depth, sel, sample, recs='{FALSE, TRUE}', sim=None):
-    c = {'Depth': depth, 'EmitAll': 'TRUE', 'Recs': recs, 'ReqSel': '"%s"' % sel}
+def group_stages(depth, sel, sample, recs='{FALSE, TRUE}', props=None):
+    c = {'Depth': depth, 'EmitAll': 'TRUE', 'Recs': recs, 'ReqSel': '"%s"' % sel, 'Alphas': '{"full"}'}
     st = [{'kind': 'mc', 'name': 'matchers', 'module': 'MC_Group', 'consts': dict(c, Depth=0), 'invariants': ['NoTrace'], 'workers': 2},
-          {'kind': 'mc', 'name': 'group', 'module': 'MC_Group', 'consts': dict(c, Depth=2), 'invariants': ['NamesUnique', 'FirstWins'], 'workers': 16, 'view': 'viewG'},
-          {'kind': 'gen', 'name': 'grp%s%d' % (sel, depth), 'module': 'MC_Group', 'consts': c, 'trace': 'Trace_Group', 'sample': sample, 'min_per_shard': 4}]
+          {'kind': 'mc', 'name': 'group', 'module': 'MC_Group', 'consts': dict(c, Depth=2, Alphas='{"full", "deep"}'), 'invariants': ['NamesUnique', 'FirstWins'], 'workers': 16, 'view': 'viewG'},
+          {'kind': 'gen', 'name': 'grp%s%d' % (sel, depth), 'module': 'MC_Group', 'consts': c, 'trace': 'Trace_Group', 'sample': sample, 'min_per_shard': 4, 'props': props},
+          # the deep base (group middleware + two routers already added) with per-router Use / Handle calls, every history to depth 3
+          {'kind': 'gen', 'name': 'grpdeep%s' % sel, 'module': 'MC_Group', 'consts': dict(c, Alphas='{"deep"}'), 'trace': 'Trace_Group', 'min_per_shard': 4, 'props': props}]
     return st
 
 
@@ -158,7 +160,7 @@ def plan(prop, tier):
     if prop == 'C06':
         return {'stages': lock_stages(q) + [conc_stage('c06', 4, 6 if q else 60, 3, 20 if q else 60)], 'rule': RULE_CONC, 'assumptions': ASSUME_CONC}
     if prop == 'C07':
-        return {'stages': globals_stages(q) + [conc_stage('c07inst', 4, 2 if q else 30, 2, 15 if q else 40), conc_stage('c07quiet', 6, 2 if q else 30, 3, 15 if q else 40, 1),
+        return {'stages': globals_stages(q) + group_stages(2, 'C13', 0.1 if q else 0.5)[2:] + [conc_stage('c07inst', 4, 2 if q else 30, 2, 15 if q else 40), conc_stage('c07quiet', 6, 2 if q else 30, 3, 15 if q else 40, 1),
                                                conc_stage('c07seq', 8, 6 if q else 80, 1, 0, 2)], 'rule': RULE_CONC, 'assumptions': ASSUME_CONC}
     if prop == 'C20':
         return {'stages': params_stages(2, 1.0) + params_stages(3, 0.1 if q else 0.6)[1:], 'rule': RULE_PARAMS, 'assumptions': ASSUME_COMMON}
@@ -254,8 +256,8 @@ def p_c19(q):
 def p_c09(q):
     F = dict(module='MC_RouterF')
     if q:
-        return [mc_router('T'), gen_bfs('F', 2, sample=0.25, **F), gen_sim('F', 8, 8, module='MC_RouterF')]
-    return [mc_router('T'), gen_bfs('F', 2, **F), gen_bfs('F', 3, name='bfsF3', sample=0.02, **F), gen_sim('F', 14, 60, module='MC_RouterF')]
+        return [mc_router('T'), gen_bfs('F', 2, sample=0.25, **F), gen_sim('F', 8, 8, module='MC_RouterF')] + group_stages(2, 'C13', 0.1)[2:]
+    return [mc_router('T'), gen_bfs('F', 2, **F), gen_bfs('F', 3, name='bfsF3', sample=0.02, **F), gen_sim('F', 14, 60, module='MC_RouterF')] + group_stages(2, 'C13', 0.5)[2:]
 
 
 def p_c18(q):
